@@ -18,7 +18,7 @@ RULE = ('full product of table shape x value pattern x mode x layout (xsec, k-ta
 ASSUME = ['numba kernels, numpy trusted', 'table values positive (1e-40..1), neighbouring nodes within 1e3 of each other',
           'outside the grid only the bracket/non-negativity/finite invariants are demanded (the statement does not fix the formula there)']
 
-PATTERNS = ['generic', 'incT', 'decT', 'saddle', 'flat', 'wide', 'tiny']
+PATTERNS = ['generic', 'incT', 'decT', 'saddle', 'flat', 'wide', 'tiny', 'cliff']
 LAYOUTS = ['xsec', 'k1', 'k2', 'k3', 'k2v']      # k2v: two g-points, table exposed as a non-contiguous transposed view
 WNREQ = ['none', 'full', 'sub', 'single', 'desc', 'bands']
 
@@ -72,7 +72,15 @@ def make_table(case):
         p = 'generic'
         per_wn = [1.0, 1e-7, 1e-14, 1e-20]
         mag = 1e-24         # down to 1e-40 cm^2
+    if pat == 'cliff':
+        p = 'generic'
     x = fx.table(nP, nT, nW, mag, salt=('c04', pat, case.get('variant', 0)), pattern=p, per_wn=per_wn)
+    if pat == 'cliff':
+        # neighbouring pressure rows thirty decades apart (a line wing next to a window): the outermost rows are the
+        # small ones, so anything of the inner rows leaking into an edge answer swamps it
+        f = np.full(nP, 1e30)
+        f[0] = f[-1] = 1.0
+        x = x * f[:, None, None] * 1e-16
     lay = case['layout']
     if lay != 'xsec':
         ng = int(lay[1])
@@ -149,6 +157,20 @@ def case_fn(case):
     isk = case['layout'] != 'xsec'
     mode = case['mode']
     tag = '%s/%s' % (mode, 'ktable' if isk else 'xsec')
+    if req in ('sub', 'desc'):
+        # the caller keeps ONE request array and refills it in place for the next band: the answer follows the numbers
+        # now in the array (here: the other pair of native points), not what the same object held at the last call
+        buf = wn[0:2].copy() if req == 'sub' else wn[[1, 0]].copy()
+        Tm, Pm = 0.5 * (Tg[0] + Tg[1]), float(np.sqrt(Pg[0] * Pg[1]))
+        try:
+            first_ = np.array(op.opacity(Tm, Pm, buf), dtype=float)
+            buf[...] = wn[2:4] if req == 'sub' else wn[[3, 2]]
+            second_ = np.array(op.opacity(Tm, Pm, buf), dtype=float)
+            sel2 = slice(2, 4) if req == 'sub' else [3, 2]
+            r.eq(second_, opac.interp_opacity(x[:, :, sel2], Tg, Pg, Tm, Pm, mode), 'request-buffer-reused',
+                 'request-buffer-refilled/%s' % tag, rtol=1e-9, first=first_)
+        except Exception as e:
+            r.check(False, 'no-exception', 'exception/%s/request-buffer/%s' % (type(e).__name__, tag), exc=repr(e))
     fine = bool(case.get('fine'))
     lattice = list(itertools.product(axis_points(Tg, fine=fine), axis_points(Pg, log=True, fine=fine)))
     # the same object answers the whole lattice forwards and then backwards: an answer must not depend on the
@@ -380,7 +402,7 @@ def explore(ctx):
         shapes += [(4, 4), (2, 4), (4, 3), (4, 2), (3, 4)]
         pats, wnreq = PATTERNS, WNREQ
     else:
-        pats, wnreq = ['generic', 'saddle', 'wide', 'tiny', 'flat'], ['none', 'sub', 'full', 'desc', 'bands']
+        pats, wnreq = ['generic', 'saddle', 'wide', 'tiny', 'flat', 'cliff'], ['none', 'sub', 'full', 'desc', 'bands']
     cases = []
     for shape, pat, mode, lay, wq in itertools.product(shapes, pats, ['linear', 'exp'], LAYOUTS, wnreq):
         cases.append({'shape': list(shape), 'pattern': pat, 'mode': mode, 'layout': lay, 'wn': wq})
